@@ -11,6 +11,15 @@ BASE_NOTE = ("Trusted base: CPython's ast parser, the engines under /verif/sa (p
              "conditions of the property - and not the value-level behaviour; see DESIGN.md for what is not decided.")
 
 CLAIMS = {
+    "C15": dict(
+        text=("Static rules over the stdlib bridges: (R15.1) unit-of-measure inference: no expression/API call in the conversion code mixes units (ticks, microseconds, seconds, days constants); "
+              "(R15.3) range guards admit the whole stdlib range: on the returning paths of to_naive_datetime the year handed to datetime has lower bound exactly MINYEAR and every field is read from "
+              "the Gregorian-converted value; Instant.to_datetime_utc raises exactly for instants strictly before the BCL epoch (order-domain evaluation of the guard on all key relations); "
+              "(R15.5) numeric discipline: no float-valued library call (timedelta.total_seconds, math.*), float division or flooring operator on possibly negative exact quantities. "
+              "Value-level round trips are not decided."),
+        design_ref="DESIGN.md section 3, C15",
+        technique="static analysis: unit inference, interval abstract interpretation of guards, order-domain evaluation, numeric-discipline inventory",
+    ),
     "C09": dict(
         text=("Static rules: (R09.1) dimension inference from the repo's own unit names: all 22 `case PeriodUnits.U` arms of Period.between build the result with from_U from a quantity "
               "measured in U, and (R09.1b) no expression/API call/constructor keyword in the period and field code mixes units; (R09.2) month/year arithmetic of the regular calculators: the "
